@@ -79,6 +79,20 @@ CLAIMED = {
         "design_ref": "DESIGN.md §5 C15, §3.2",
         "note": COMMON_NOTE + "Legacy files are synthesised by rewriting the header record of a pinned-release file (no 0.10 binary in the sandbox); SHA3-256 is implemented in the driver (checked against known vectors) and uninterpreted in proofs. 'Refused' is the documented panic.",
     },
+    "C02": {
+        "category": "proof",
+        "technique": "Lean 4 theorems on a page-level disk model (durable image + unsynced writes; arbitrary subsets and tears) proving crash atomicity and durability for the commit's operation order, instantiated at the order regenerated from write_data + crash-image correspondence from libc calls logged by an LD_PRELOAD shim",
+        "text": "Proved (Jamm/Props/C02.lean) for every commit context (current header newest and intact, copy-on-write, newer header): after any prefix of the commit's operations and any fates (lost / full / torn) of the writes issued since the last completed sync, recovery finds the previous commit complete or the new commit complete; once the final sync completed every later crash recovers the new commit; process kills are atomic even without the intermediate sync. The operations of write_data, in the order regenerated from the source on every run, are proved to have exactly the safe shape (data writes, sync, header into the other slot, sync); the pinned release's order is proved NOT atomic (D8, repaired by a fix: commit). Tie: histories run under an LD_PRELOAD shim that logs write/lseek/fsync on the database fd; the observed sequence of every commit must match the regenerated step order; crash images (every write prefix, short last write, all single omissions and sampled subsets of unsynced writes, 512-byte sector tears, 8-byte header word tears) are opened by the real code and by the Lean model and must show exactly the state before or after, pass DB::check and the Lean file checker; after return the new state must survive.",
+        "design_ref": "DESIGN.md §5 C02, §3.8",
+        "note": COMMON_NOTE + "A-disk: sector atomicity, no reordering across a completed fsync, page cache coherent with mmap (assumptions about Linux). NoTornCollision is evaluated on every synthesised header tear. That the real commit is copy-on-write is checked per commit (C03/C05), not proved. A crash during file creation is outside the property.",
+    },
+    "C11": {
+        "category": "proof",
+        "technique": "Lean 4: kernel-decided consistency of in-memory free list vs visible header at every failure point of the regenerated step order + kill-image atomicity theorems (C02) + exhaustive single-fault injection through the LD_PRELOAD shim and RLIMIT_FSIZE",
+        "text": "Proved / decided on every run (Jamm/Props/C11.lean): at every fallible step of the regenerated write_data order, for both outcomes of a partial header write, and on success, the shared free list is published iff this transaction's header is the visible one; a failure leaves a kill image of the operations issued so far, hence exactly the previous or the new commit (including a header write that fails after a short write); witnesses: the pinned order is inconsistent (D9, repaired by a fix: commit) and publishing right after the header write would not have been enough. The translator refuses to regenerate the step list unless every file operation propagates its error with `?`. Tie: every write index x {EIO, ENOSPC after a 0/512-byte short write} and every fsync index of real commits is failed through the shim, file extension through RLIMIT_FSIZE; commit must return the I/O error (never panic); then the visible state must be exactly before or after, the Lean file checker and DB::check must pass, three more committed transactions and a reopen must refine the specification.",
+        "design_ref": "DESIGN.md §5 C11, §3.8",
+        "note": COMMON_NOTE + "Assumes pages written before a failed fsync stay visible through the map (kernel behaviour). Pairs of faults are sampled only in the thorough tier.",
+    },
 }
 
 REASON_PENDING = "check not built yet (build in progress, see DESIGN.md section 8)"
